@@ -84,9 +84,21 @@ Theorem C25_one_class_set_per_file_partial : forall fs main, main <> BASE ->
     c_id c = c_id c' -> a = a' /\ n = n'.
 Proof. exact classes_distinct. Qed.
 Print Assumptions C25_one_class_set_per_file_partial.
-(* Not proved (full statement): NoDup (loads (load_main fs main)) and
-   created = 9 + sum of the rule counts of the loaded files, i.e. every file is read and its
-   classes created exactly once; checked on every case by the correspondence instead. *)
+(* Not proved (full statement): created = 9 + sum of the rule counts of the files read, i.e.
+   classes are created only by reading a file, once per rule; compared on every case by the
+   correspondence (field C) and stated by the oracle instead. *)
+
+(* Every grammar file is read at most once, however many import paths (or cycles) lead to
+   it; holds for failed loads too. *)
+Theorem C25_each_file_read_once : forall fs main, main <> BASE -> NoDup (loads (load_main fs main)).
+Proof. exact loads_once. Qed.
+Print Assumptions C25_each_file_read_once.
+
+(* Loading terminates for every import graph (cycles of imports included): the fuel
+   |fs|+1 used by load_main is never exhausted, so EFuel is not a possible outcome. *)
+Theorem C25_terminates : forall fs main, serr (load_main fs main) <> Some EFuel.
+Proof. exact load_main_terminates. Qed.
+Print Assumptions C25_terminates.
 
 (* ---- known finding: import cycles ---- *)
 (* In a cycle the imported file's second pass runs before the importing file has any rule.
